@@ -49,7 +49,7 @@ def run(tier, seed):
         v.sample(s)
     nt = v.counters.get('feat_release', 0) + v.counters.get('feat_refix', 0)
     if nt == 0 or v.counters.get('long_histories', 0) == 0:
-        raise MachineryError('vacuous run')
+        v.vacuous('vacuous run')
     cov = dict(states=sum(r['states'] for r in out['runs']), transitions=sum(r['transitions'] for r in out['runs']),
                traces_validated_against_impl=out['n'] * out['na'], evaluations=v.counters.get('evaluations', 0),
                distinct_nontrivial=nt, exhaustive=(tier == 'thorough'),
